@@ -14,7 +14,7 @@ func init() { register("C29", checkC29) }
 
 func checkC29(p *Prog, r *Result, tier string) {
 	r.Technique = "channel/wait-group/pipe protocol rules on go/cfg: close-on-all-paths, join-before-close, pipe reader released on every consumer exit, bounded-buffer drain after early loop exit, loop lower-bound of the chunker"
-	r.Explanation = "H1/H5 both send streams (SendLargeFile, Send) are closed exactly once by a first-statement defer after every sender goroutine (defer wg.Done() first, Add before spawn) was waited for; FD the goroutines feeding the input channel close it by a first-statement defer; " +
+	r.Explanation = "DUP the dispatcher hands every chunk to each DISTINCT target once (duplicated target ids are skipped per chunk); H1/H5 both send streams (SendLargeFile, Send) are closed exactly once by a first-statement defer after every sender goroutine (defer wg.Done() first, Add before spawn) was waited for; FD the goroutines feeding the input channel close it by a first-statement defer; " +
 		"H4 the per-target pipe: the consumer releases the pipe reader on every exit (deferred Close) — otherwise a consumer that never reads (missing target, lock failure) leaves the writer blocked forever; H6 the per-target goroutine drains its bounded buffer after leaving the receive loop early, so the dispatcher never blocks on a broken target; the writer end is closed on every path; " +
 		"H2 each consumer reports exactly one message per file (inside the lock callback, or the lock error); CH the chunker emits at least one chunk for every file, including an empty one."
 	r.NotCovered = "byte identity of the content, owner and mode (data, not shape); engine behaviour"
@@ -63,6 +63,93 @@ func checkC29(p *Prog, r *Result, tier string) {
 	}
 	checkPipeConsumer(p, r, a)
 	checkChunker(p, r)
+	// DUP: a target named twice gets each chunk once: the loop that hands a chunk to the per-target senders either ranges
+	// over a de-duplicated id list or skips ids it has already served for this chunk (a set declared inside the per-chunk
+	// loop, tested with `continue` before the send)
+	{
+		r.min("DUP", 1)
+		D := p.Fn("cluster/calcium.(*Calcium).SendLargeFile")
+		key := "cluster/calcium.(*Calcium).SendLargeFile / every chunk goes to each distinct target once"
+		if D == nil {
+			r.undecided("DUP", key, "", "not found")
+		} else {
+			why := "no loop over the target ids that hands the chunk to a sender found"
+			for _, fn := range append([]*FuncNode{D}, D.Lits...) {
+				fn.inspectBody(func(n ast.Node) bool {
+					outer, ok := n.(*ast.RangeStmt)
+					if !ok {
+						return true
+					}
+					// the per-chunk loop ranges over the input channel
+					if t := fn.typeOf(outer.X); t == nil {
+						return true
+					} else if _, isChan := t.Underlying().(*types.Chan); !isChan {
+						return true
+					}
+					for _, st := range outer.Body.List {
+						inner, ok := st.(*ast.RangeStmt)
+						if !ok || !strings.HasSuffix(exprStr(inner.X), ".IDs") && !strings.Contains(exprStr(inner.X), "IDs") {
+							continue
+						}
+						var send *ast.CallExpr
+						ast.Inspect(inner.Body, func(x ast.Node) bool {
+							if c, ok := x.(*ast.CallExpr); ok && fn.Callee(c) != nil && fn.Callee(c).Name() == "send" {
+								send = c
+							}
+							return true
+						})
+						if send == nil {
+							continue
+						}
+						// de-duplicated operand?
+						if c, ok := unparen(inner.X).(*ast.CallExpr); ok && fn.Callee(c) != nil && strings.Contains(strings.ToLower(fn.Callee(c).Name()), "uniq") {
+							why = ""
+							continue
+						}
+						// seen-set declared in the per-chunk loop body, tested before the send with a continue
+						why = "the loop over the target ids sends the chunk once per LISTED id: a workload named twice receives every chunk twice and ends up with a file twice the size"
+						for _, st2 := range outer.Body.List {
+							as, ok := st2.(*ast.AssignStmt)
+							if !ok || as.Tok != token.DEFINE || len(as.Lhs) != 1 || as.Pos() > inner.Pos() {
+								continue
+							}
+							set := fn.objOf(as.Lhs[0])
+							if t := fn.typeOf(as.Lhs[0]); t == nil {
+								continue
+							} else if _, isMap := t.Underlying().(*types.Map); !isMap {
+								continue
+							}
+							tested, marked := false, false
+							for _, ist := range inner.Body.List {
+								if ist.Pos() > send.Pos() {
+									break
+								}
+								switch y := ist.(type) {
+								case *ast.IfStmt:
+									if fn.usesObj(y, set) && len(y.Body.List) > 0 {
+										if b, ok := y.Body.List[len(y.Body.List)-1].(*ast.BranchStmt); ok && b.Tok == token.CONTINUE {
+											tested = true
+										}
+									}
+								case *ast.AssignStmt:
+									if len(y.Lhs) == 1 {
+										if ix, ok := unparen(y.Lhs[0]).(*ast.IndexExpr); ok && fn.objOf(ix.X) == set {
+											marked = true
+										}
+									}
+								}
+							}
+							if tested && marked {
+								why = ""
+							}
+						}
+					}
+					return true
+				})
+			}
+			r.check2(why, "DUP", key, p.pos(D.Decl), "ids already served for the chunk are skipped (per-chunk set, test-and-continue before the send)")
+		}
+	}
 }
 
 // checkPipeConsumer: H4, H6, H2 and writer close in newWorkloadSender.
